@@ -5,6 +5,8 @@ import BufProofs.Props.C17
 #print axioms BufProofs.C17.generated_at_most_once
 #print axioms BufProofs.C17.request_closed_and_ordered
 #print axioms BufProofs.C17.imports_reachable_once
+#print axioms BufProofs.C17.built_image_ordered
+#print axioms BufProofs.C17.built_request_closed_and_ordered
 #print axioms BufProofs.C17.source_retention_only_runtime_view
 #print axioms BufProofs.C17.strategy_all_single_request
 #print axioms BufProofs.C17.writes_under_out
